@@ -74,6 +74,8 @@ pub struct ScenN<const N: usize> {
     data: HashMap<Vec<u8>, (usize, u64)>,
     dead: Option<String>,
     keys: std::collections::BTreeSet<String>,
+    snap: HashMap<String, Vec<u8>>,
+    snap_ids: std::collections::BTreeSet<usize>,
 }
 
 fn parse_meta(s: &str) -> Option<Option<Meta>> {
@@ -116,7 +118,7 @@ impl<const N: usize> ScenN<N> {
                 .build()
                 .unwrap()
         };
-        ScenN { rt, st: None, cfg, dir, data: HashMap::new(), dead: None, keys: Default::default() }
+        ScenN { rt, st: None, cfg, dir, data: HashMap::new(), dead: None, keys: Default::default(), snap: HashMap::new(), snap_ids: Default::default() }
     }
 
     fn builder(&self) -> Builder {
@@ -152,6 +154,7 @@ impl<const N: usize> ScenN<N> {
     }
 
     pub fn open(&mut self, lazy: bool) -> String {
+        pearl::verif::set_recording(true, true);
         let b = self.builder();
         let mut st: Storage<ArrayKey<N>> = match b.build() {
             Ok(s) => s,
@@ -275,6 +278,115 @@ impl<const N: usize> ScenN<N> {
         }
         std::fs::write(path, d).unwrap();
         true
+    }
+
+    /// `<id>:<kind>[:arg]` applied to a blob file in place; its index file is removed so that the blob is scanned.
+    /// kinds: magic (blob header magic), hflip:<n> (flip a byte in the header of record n), dflip:<n> (flip a data
+    /// byte of record n), cut:<k> (remove k bytes from the end), keepidx is not supported here
+    fn damage_blob(&self, spec: &str) {
+        let parts: Vec<&str> = spec.split(':').collect();
+        if parts.len() < 2 {
+            return;
+        }
+        let path = self.dir.join(format!("t.{}.blob", parts[0]));
+        let mut bytes = match std::fs::read(&path) {
+            Ok(b) => b,
+            Err(_) => return,
+        };
+        let arg: usize = parts.get(2).and_then(|x| x.parse().ok()).unwrap_or(0);
+        let recs = Self::parse_blob(&bytes);
+        match parts[1] {
+            "magic" => {
+                bytes[0] ^= 0xff;
+            }
+            "hflip" => {
+                if let Some((start, hsz, _, _)) = recs.get(arg % recs.len().max(1)) {
+                    let p = start + hsz - 10; // inside the timestamp/checksum area of the record header
+                    bytes[p] ^= 0x5a;
+                }
+            }
+            "dflip" => {
+                let with_data: Vec<_> = recs.iter().filter(|r| r.3 > 0).collect();
+                if !with_data.is_empty() {
+                    let (start, hsz, ms, ds) = *with_data[arg % with_data.len()];
+                    bytes[start + hsz + ms + ds / 2] ^= 0x5a;
+                }
+            }
+            "cut" => {
+                let n = bytes.len().saturating_sub(arg).max(0);
+                bytes.truncate(n);
+            }
+            _ => return,
+        }
+        std::fs::write(&path, bytes).unwrap();
+        let _ = std::fs::remove_file(path.with_extension("index"));
+    }
+
+    /// byte snapshot of every blob file (work dir and corrupted dir) compared with the previous snapshot:
+    /// earlier content must be a prefix of the current content, or the file was moved into the corrupted dir;
+    /// a new blob name must carry an id above every id seen before
+    fn snapshot(&mut self) -> String {
+        let mut cur: HashMap<String, Vec<u8>> = HashMap::new();
+        let mut where_: HashMap<String, &'static str> = HashMap::new();
+        for (d, tag) in [(self.dir.clone(), "work"), (self.dir.join("corrupted"), "corrupted")] {
+            if let Ok(rd) = std::fs::read_dir(&d) {
+                for e in rd.flatten() {
+                    let p = e.path();
+                    if p.extension().map_or(false, |x| x == "blob") {
+                        let name = e.file_name().to_string_lossy().to_string();
+                        if let Some(prev_tag) = where_.get(&name) {
+                            return format!("snap bad {} present in {} and {}", name, prev_tag, tag);
+                        }
+                        cur.insert(name.clone(), std::fs::read(&p).unwrap_or_default());
+                        where_.insert(name, tag);
+                    }
+                }
+            }
+        }
+        let mut bad = None;
+        for (name, old) in &self.snap {
+            match cur.get(name) {
+                None => {
+                    bad = Some(format!("{} disappeared", name));
+                    break;
+                }
+                Some(new) => {
+                    if new.len() < old.len() {
+                        bad = Some(format!("{} shrank from {} to {} bytes", name, old.len(), new.len()));
+                        break;
+                    }
+                    if new[..old.len()] != old[..] {
+                        let pos = old.iter().zip(new.iter()).position(|(a, b)| a != b).unwrap_or(0);
+                        bad = Some(format!("{} modified at byte {}", name, pos));
+                        break;
+                    }
+                }
+            }
+        }
+        let id_of = |n: &str| n.split('.').nth(1).and_then(|x| x.parse::<usize>().ok());
+        if bad.is_none() {
+            let max_seen = self.snap_ids.iter().max().copied();
+            for name in cur.keys() {
+                if !self.snap.contains_key(name) {
+                    if let (Some(id), Some(m)) = (id_of(name), max_seen) {
+                        if id <= m {
+                            bad = Some(format!("new blob {} reuses an id (ids up to {} were used before)", name, m));
+                            break;
+                        }
+                    }
+                }
+            }
+        }
+        for name in cur.keys() {
+            if let Some(id) = id_of(name) {
+                self.snap_ids.insert(id);
+            }
+        }
+        self.snap = cur;
+        match bad {
+            None => "snap ok".into(),
+            Some(b) => format!("snap bad {}", b),
+        }
     }
 
     /// record layout of a blob file, parsed independently of pearl:
@@ -536,6 +648,9 @@ impl<const N: usize> ScenN<N> {
         if (toks[0] == "w" || toks[0] == "d") && toks.len() > 1 {
             self.keys.insert(toks[1].to_string());
         }
+        if toks[0] == "snap" {
+            return self.snapshot();
+        }
         if toks[0] == "dmgsweep" {
             return self.dmgsweep(&toks);
         }
@@ -559,6 +674,20 @@ impl<const N: usize> ScenN<N> {
             }
             if toks[0] == "close" {
                 return "ok".into();
+            }
+            for t in toks.iter().skip(1) {
+                if let Some(spec) = t.strip_prefix("bdmg=") {
+                    for one in spec.split(',') {
+                        self.damage_blob(one);
+                    }
+                }
+                if let Some(spec) = t.strip_prefix("idmg=") {
+                    for one in spec.split(',') {
+                        if let Some((id, kind)) = one.split_once(':') {
+                            Self::damage_index(&self.dir.join(format!("t.{}.index", id)), kind);
+                        }
+                    }
+                }
             }
             return self.open(lazy);
         }
@@ -797,6 +926,74 @@ impl<const N: usize> ScenN<N> {
                 s
             }
             "settle" => Self::settle(st).await,
+            "quiesce" => {
+                Self::quiesce(st).await;
+                "ok".into()
+            }
+            "trace" => {
+                Self::quiesce(st).await;
+                let evs = pearl::verif::take_events();
+                let mut parts = Vec::new();
+                for e in evs {
+                    let name = e.path.file_name().map(|x| x.to_string_lossy().to_string()).unwrap_or_default();
+                    let f: Vec<&str> = name.split('.').collect();
+                    let in_corrupted = e.path.parent().and_then(|p| p.file_name()).map_or(false, |d| d == "corrupted");
+                    let class = if f.len() == 3 && f[2] == "blob" {
+                        format!("{}b{}", if in_corrupted { "x" } else { "" }, f[1])
+                    } else if f.len() == 3 && f[2] == "index" {
+                        format!("i{}", f[1])
+                    } else {
+                        "o".to_string()
+                    };
+                    let inj = e.injected.map(|x| format!("!{}", x)).unwrap_or_default();
+                    let is_index = class.starts_with('i');
+                    let item = match e.kind {
+                        pearl::verif::OpKind::Create => format!("C{}{}", class, inj),
+                        pearl::verif::OpKind::Open => format!("O{}{}", class, inj),
+                        pearl::verif::OpKind::Sync => {
+                            if is_index { format!("S{}{}", class, inj) } else { format!("S{}:{}{}", class, e.len, inj) }
+                        }
+                        pearl::verif::OpKind::Write => {
+                            if is_index {
+                                if e.offset == 0 && e.len == 83 {
+                                    let (bs, wr) = match &e.data {
+                                        Some(d) if d.len() == 83 => {
+                                            let mut b = [0u8; 8];
+                                            b.copy_from_slice(&d[75..83]);
+                                            (u64::from_le_bytes(b).to_string(), (d[72] & 1).to_string())
+                                        }
+                                        _ => ("?".into(), "?".into()),
+                                    };
+                                    format!("W{}:hdr:bs={}:w={}{}", class, bs, wr, inj)
+                                } else {
+                                    format!("W{}:{}:*{}", class, e.offset, inj)
+                                }
+                            } else {
+                                format!("W{}:{}:{}{}", class, e.offset, e.len, inj)
+                            }
+                        }
+                    };
+                    parts.push(item);
+                }
+                format!("#trace {}", parts.join(" "))
+            }
+            "dirty" => {
+                Self::quiesce(st).await;
+                let states = st.verif_blob_states().await;
+                match states.iter().find(|b| b.active) {
+                    Some(b) => format!("dirty {}", b.dirty),
+                    None => "dirty -".into(),
+                }
+            }
+            "fstates" => {
+                Self::quiesce(st).await;
+                let states = st.verif_blob_states().await;
+                let mut s = String::from("#fstates");
+                for b in states {
+                    s.push_str(&format!(" {}:{}:{}:{}", b.id, if b.active { "a" } else { "c" }, b.file_size, b.dirty));
+                }
+                s
+            }
             "states" => {
                 let states = st.verif_blob_states().await;
                 let mut s = String::from("#states");
@@ -847,6 +1044,27 @@ impl<const N: usize> ScenN<N> {
                 return;
             }
             tokio::time::sleep(Duration::from_millis(1)).await;
+        }
+    }
+
+    /// wait until the worker queue is drained and no blocking I/O closure is running
+    async fn quiesce(st: &Storage<ArrayKey<N>>) {
+        let deadline = tokio::time::Instant::now() + Duration::from_secs(20);
+        let mut calm = 0;
+        loop {
+            Self::drain(st).await;
+            if pearl::verif::inflight() == 0 {
+                calm += 1;
+                if calm >= 3 {
+                    return;
+                }
+            } else {
+                calm = 0;
+            }
+            if tokio::time::Instant::now() > deadline {
+                return;
+            }
+            tokio::time::sleep(Duration::from_millis(2)).await;
         }
     }
 
@@ -944,6 +1162,8 @@ pub fn run_lines(lines: &[String], base: &Path, keep: bool, out: &mut dyn FnMut(
             if let Some(mut s) = cur.take() {
                 s.finish(keep);
             }
+            pearl::verif::clear_failpoints();
+            let _ = pearl::verif::take_events();
             let cfg = Cfg::parse(&toks[1..]);
             let dir = base.join(format!("pearl-verif-{}-{}", pid, n));
             n += 1;
